@@ -713,11 +713,16 @@ def _lex_parse_check(rep, rac, strings):
     for s in strings:
         cmds.append({"cmd": "lex", "s": s})
         cmds.append({"cmd": "parse", "s": s})
-    ans = rac.ask_many(cmds)
+    ans = rac.ask_many_guarded(cmds, chunk=400, per_cmd_s=5.0)
     for i, s in enumerate(strings):
         lx, pr = ans[2 * i], ans[2 * i + 1]
+        if lx.get("skipped") or pr.get("skipped"):
+            continue
         b = s.encode("utf-8")
         rep.ran(s, True, dict(input=s, tokens=len(lx.get("tokens", []))))
+        if lx.get("timeout") or pr.get("timeout"):
+            rep.fail("lexer / parser did not terminate (no answer within 5 s for a short input)", query=s, expected="tokens and a tree", actual="no answer", cmd={"cmd": "lex", "s": s})
+            continue
         if "panic" in lx or lx.get("nontermination"):
             rep.fail("lexer panicked or did not terminate", query=s, expected="tokens", actual=json.dumps(lx)[:200])
             continue
@@ -764,6 +769,10 @@ def c12(rac, units, tier, seed):
         strings.append("".join(rnd.choice(TOKEN_ALPHABET) for _ in range(rnd.randint(4, 40))))
     for _ in range(300 if tier == "quick" else 5000):
         strings.append("".join(chr(rnd.choice([rnd.randint(32, 126), rnd.randint(0xA0, 0x2FF), rnd.randint(0x2000, 0x2BFF), rnd.randint(0x1F300, 0x1F6FF), 9, 10])) for _ in range(rnd.randint(1, 24))))
+    # number-shaped strings, exhaustively: every string of <= 4 characters over the characters consume_number looks at
+    for L in range(1, 5):
+        strings += ["".join(c) for c in itertools.product(["1", "0", "e", "E", "+", "-", ".", "x", " "], repeat=L)]
+    strings = list(dict.fromkeys(strings))
     _lex_parse_check(rep, rac, strings)
     return [rep]
 
@@ -791,6 +800,8 @@ def c11(rac, units, tier, seed, profile="debug"):
     ans = rac.ask_many_guarded([{"cmd": "query", "q": s} for s in strings])
     slow_family = re.compile(r"\^|\*\*|[0-9.][eE]")      # known finding D28: work grows with the VALUE of an exponent, not with the size of the input
     for s, a in zip(strings, ans):
+        if a.get("skipped"):
+            continue
         rep.ran(s, True, dict(input=s, results=len(a.get("results", []))))
         if a.get("timeout"):
             if not slow_family.search(s):
@@ -883,6 +894,45 @@ def c09(rac, units, tier, seed):
             v = st[1]
             if (v.denominator % 20 == 0 and v.denominator not in (1,)) or abs(v) > 1000:
                 rep.fail("zero-point offset added to a product/quotient", query=q, expected="an error or an interval reading", actual=str(v))
+    # products and quotients with a temperature scale on either side, in both orders: refused, or the interval reading -- the SI value
+    # of the result is the product / quotient of the operands' values times their degree sizes (K 1, °C 1, °F 5/9), no zero point anywhere
+    size = {"K": F(1), "K^2": F(1), "°C": F(1), "°F": F(5, 9), "m": F(1), "K*m": F(1), "°C^2": F(1), "s": F(1), "": F(1)}
+    # (`°F^2` etc. would need the square of the degree size; one level is enough here)
+    temps = ["K", "K^2", "°C", "°F", "°C^2"]
+    others = ["m", "K*m", "s", ""]
+    xs = [F(1), F(5), F(5, 2), F(-3), F(41)]
+    txt = {F(1): "1", F(5): "5", F(5, 2): "2.5", F(-3): "-3", F(41): "41"}    # literals (`5/2 K` would read as 5 / (2 K))
+    # not judged here: both operands a lone offset scale with power one (`41 °F / 2.5 °C`) -- each is then converted "alone with power
+    # one", which the property allows (the pinned tree answers with the ratio of the absolute temperatures)
+    lone = ("°C", "°F")
+    pairs = [(a, b) for a in temps for b in temps + others if not (a in lone and b in lone)] + [(a, b) for a in others for b in temps]
+    qs = []
+    for ua, ub in pairs:
+        for _ in range(2 if tier == "quick" else 6):
+            x, y = rnd.choice(xs), rnd.choice(xs)
+            for op in ("*", "/"):
+                q = f"({txt[x]} {ua}) {op} ({txt[y]} {ub})".replace(" )", ")")
+                sa = x * (size[ua] ** (2 if ua == "°C^2" else 1))
+                sb = y * (size[ub] ** (2 if ub == "°C^2" else 1))
+                qs.append((q, sa * sb if op == "*" else sa / sb))
+    answers = rac.ask_many_guarded([{"cmd": "query", "q": q, "describe": False} for q, _ in qs], chunk=200, per_cmd_s=3.0)
+    for (q, want), a in zip(qs, answers):
+        if a is None or "results" not in a:
+            continue
+        st = single_value(a)
+        rep.ran(("product", q), True)
+        if st[0] == "ok":
+            si = units.si(st[2])
+            # judged only when the RESULT carries an offset scale that is not alone with power one: then no zero point may be in it.
+            # (a result in kelvin or without unit may come from reading a lone `°C` operand as an absolute temperature, which the
+            # property allows: `41 K / 5 °C` = 41 / 278.15 on the pinned tree)
+            ents = st[2]["unit"]
+            offs = [e for e in ents if units.entry_info(e[0])[2]]
+            compound_offset = bool(offs) and (len(ents) > 1 or any(int(e[1]) != 1 for e in offs))
+            if compound_offset and si is not None and si[0] != want:
+                rep.fail("zero-point offset added to a product/quotient (neither refused nor the interval reading)", query=q, expected=f"an error, or a value whose SI interval reading is {want}", actual=f"{st[1]} {st[2].get('unit_str')} (SI interval reading {si[0]})")
+        elif st[0] not in ("err",):
+            rep.fail("neither value nor error", query=q, expected="error or interval reading", actual=str(st[0]))
     return [rep]
 
 
@@ -907,13 +957,25 @@ def c17(rac, units, tier, seed):
         for pre in ("", "k", "m"):
             for pw in (-3, -2, -1, 1, 2, 3):
                 exprs.append(f"{pre}{w}" + (f"^{pw}" if pw != 1 else ""))
+    # every SI prefix spelling on every word (the stored prefix is biased for the gram: `yg` is stored as 10^-27 kg): power 1 and -2
+    allpre = ["y", "z", "a", "f", "p", "n", "µ", "u", "m", "c", "d", "da", "h", "k", "M", "G", "T", "P", "E", "Z", "Y"]
+    for w in words:
+        for pre in allpre:
+            for pw in (1, -2):
+                exprs.append(f"{pre}{w}" + (f"^{pw}" if pw != 1 else ""))
+    for pre in allpre:
+        exprs += [f"{pre}g/m^3", f"J/{pre}g", f"{pre}g*m/s^2", f"{pre}m/{pre}s", f"{pre}B/s"]
+    exprs = list(dict.fromkeys(exprs))
     for _ in range(100 if tier == "quick" else 2000):
         exprs.append(_rand_unit_expr(rnd, units, [(w, nm, 0) for w, nm in _unit_words(units, exclude_offsets=True)], rnd.randint(2, 4))[0])
     ans = rac.ask_many([{"cmd": "serde_compound", "s": e} for e in exprs])
     for e, a in zip(exprs, ans):
-        if "err" in a:
+        if "err" in a and str(a["err"]).startswith("parse:"):
             continue   # the word is not accepted with this prefix (C05's concern), nothing to round-trip
         rep.ran(("unit", e), True, dict(unit=e))
+        if "err" in a:
+            rep.fail("a unit expression that parses does not survive CBOR (" + str(a["err"]).split(":")[0] + " fails)", query=f"unit {e}", expected="encodes and decodes to an equal unit expression", actual=str(a["err"])[:300], cmd={"cmd": "serde_compound", "s": e}, raw=a)
+            continue
         if "panic" in a or not a.get("cbor_eq") or a.get("unit") != a.get("unit2"):
             rep.fail("unit expression does not survive CBOR", query=f"unit {e}", expected="decodes to an equal unit expression", actual=json.dumps(a, ensure_ascii=False)[:300], cmd={"cmd": "serde_compound", "s": e}, raw=a)
     total = 0
@@ -1535,7 +1597,8 @@ def run(prop, tier, seed, repo, known_p):
             except TypeError:
                 pass
     except HarnessError as e:
-        return dict(error=str(e), violations=[dict(check=f"{prop}: harness process died (abort or stack overflow in the real library)", detail=str(e))], standins=[])
+        what = "the real library does not terminate on a stand-in input" if "did not answer" in str(e) else "harness process died (abort or stack overflow in the real library)"
+        return dict(error=str(e), violations=[dict(check=f"{prop}: {what}", detail=str(e))], standins=[])
     finally:
         rac.close()
     violations = []
